@@ -25,9 +25,12 @@ use domain::base::opt::keepalive::IdleTimeout;
 use domain::base::opt::AllOptData;
 use domain::base::{Message, Name, Question, Rtype, ToName, Ttl};
 use domain::net::client::protocol::{AsyncConnect, AsyncDgramRecv, AsyncDgramSend};
-use domain::net::client::request::{Error, GetResponse, RequestMessage, RequestMessageMulti, SendRequest};
+use domain::net::client::request::{
+    Error, GetResponse, GetResponseMulti, RequestMessage, RequestMessageMulti, SendRequest, SendRequestMulti,
+};
 use domain::net::client::{dgram, stream};
-use domain::rdata::A;
+use domain::base::Serial;
+use domain::rdata::{Soa, Txt, A};
 use serde_json::{json, Value};
 use std::collections::VecDeque;
 use std::future::Future;
@@ -179,16 +182,46 @@ pub fn counted<F: Future>(fut: F, act: &Activity) -> Counted<F> {
 
 //------------ messages -------------------------------------------------------
 
+/// Question numbers (see ClientMsg.tla): n = (name n, A, IN); 100+n type
+/// AAAA; 200+n class CH; 300+n the name in upper case; 400+n two questions;
+/// 500+n type AXFR; 600+n type IXFR.
 pub fn qname(q: u64) -> Name<Vec<u8>> {
-    Name::<Vec<u8>>::from_str(&format!("q{}.example.", q)).unwrap()
+    Name::<Vec<u8>>::from_str(&format!("q{}.example.", q % 100)).unwrap()
+}
+
+fn qname_upper(q: u64) -> Name<Vec<u8>> {
+    Name::<Vec<u8>>::from_str(&format!("Q{}.EXAMPLE.", q % 100)).unwrap()
+}
+
+pub fn questions_of(q: u64) -> Vec<Question<Name<Vec<u8>>>> {
+    let base = qname(q);
+    match q / 100 {
+        1 => vec![Question::new(base, Rtype::AAAA, Class::IN)],
+        2 => vec![Question::new(base, Rtype::A, Class::CH)],
+        3 => vec![Question::new(qname_upper(q), Rtype::A, Class::IN)],
+        4 => vec![Question::new(base.clone(), Rtype::A, Class::IN), Question::new(base, Rtype::AAAA, Class::IN)],
+        5 => vec![Question::new(base, Rtype::AXFR, Class::IN)],
+        6 => vec![Question::new(base, Rtype::IXFR, Class::IN)],
+        _ => vec![Question::new(base, Rtype::A, Class::IN)],
+    }
+}
+
+fn request_msg(q: u64) -> Message<Vec<u8>> {
+    let mut mb = MessageBuilder::new_vec();
+    mb.header_mut().set_rd(q < 500);
+    let mut qb = mb.question();
+    for qu in questions_of(q) {
+        qb.push(qu).unwrap();
+    }
+    qb.into_message()
 }
 
 pub fn build_request(q: u64) -> RequestMessage<Vec<u8>> {
-    let mut mb = MessageBuilder::new_vec();
-    mb.header_mut().set_rd(true);
-    let mut qb = mb.question();
-    qb.push(Question::new(qname(q), Rtype::A, Class::IN)).unwrap();
-    RequestMessage::new(qb.into_message()).unwrap()
+    RequestMessage::new(request_msg(q)).unwrap()
+}
+
+pub fn build_request_multi(q: u64) -> RequestMessageMulti<Vec<u8>> {
+    RequestMessageMulti::new(request_msg(q)).unwrap()
 }
 
 fn num(v: &Value, k: &str) -> i64 {
@@ -215,12 +248,30 @@ pub fn build_peer_msg(f: &Value) -> Vec<u8> {
             _ => Rcode::SERVFAIL,
         });
     }
+    let recs: Vec<i64> = f
+        .get("recs")
+        .and_then(|v| v.as_array())
+        .map(|a| a.iter().map(|x| x.as_i64().unwrap_or(0)).collect())
+        .unwrap_or_default();
     let mut qb = mb.question();
     if q > 0 {
-        qb.push(Question::new(qname(q), Rtype::A, Class::IN)).unwrap();
+        for qu in questions_of(q) {
+            qb.push(qu).unwrap();
+        }
     }
     let mut ab = qb.answer();
-    if flag(f, "body") && ka < 0 {
+    // zone-transfer view: SOA records (serial > 0) and other records (TXT)
+    for r in recs.iter() {
+        if *r > 0 {
+            let soa = Soa::new(qname(q), qname(q), Serial::from(*r as u32), Ttl::from_secs(1),
+                               Ttl::from_secs(1), Ttl::from_secs(1), Ttl::from_secs(1));
+            ab.push((qname(q), Class::IN, Ttl::from_secs(60), soa)).unwrap();
+        } else {
+            let txt: Txt<Vec<u8>> = Txt::build_from_slice(b"x").unwrap();
+            ab.push((qname(q), Class::IN, Ttl::from_secs(60), txt)).unwrap();
+        }
+    }
+    if flag(f, "body") && ka < 0 && recs.is_empty() {
         ab.push((qname(q), Class::IN, Ttl::from_secs(60), A::new([192, 0, 2, (q % 250) as u8].into())))
             .unwrap();
     }
@@ -232,19 +283,61 @@ pub fn build_peer_msg(f: &Value) -> Vec<u8> {
 }
 
 fn q_of(msg: &Message<[u8]>) -> i64 {
-    if msg.header_counts().qdcount() == 0 {
+    let qd = msg.header_counts().qdcount();
+    if qd == 0 {
         return 0;
     }
     match msg.first_question() {
         Some(qu) => {
             let s = format!("{}", qu.qname());
-            s.strip_prefix('q')
-                .and_then(|r| r.split('.').next())
-                .and_then(|n| n.parse::<i64>().ok())
-                .unwrap_or(99)
+            let upper = s.starts_with('Q');
+            let n = s[1..].split('.').next().and_then(|n| n.parse::<i64>().ok()).unwrap_or(99);
+            let lower_ok = s.to_ascii_lowercase().starts_with(&format!("q{}.example", n));
+            if !lower_ok {
+                return 99;
+            }
+            let variant = if qd >= 2 {
+                4
+            } else if qu.qclass() != Class::IN {
+                2
+            } else if qu.qtype() == Rtype::AAAA {
+                1
+            } else if qu.qtype() == Rtype::AXFR {
+                5
+            } else if qu.qtype() == Rtype::IXFR {
+                6
+            } else if qu.qtype() != Rtype::A {
+                9
+            } else if upper {
+                3
+            } else {
+                0
+            };
+            variant * 100 + n
         }
         None => 98,
     }
+}
+
+/// zone-transfer view of the answer section: SOA -> serial, TXT -> 0
+fn recs_of(msg: &Message<[u8]>) -> Vec<i64> {
+    let mut v = vec![];
+    if let Ok(ans) = msg.answer() {
+        for rr in ans.flatten() {
+            if rr.rtype() == Rtype::SOA {
+                let serial = rr
+                    .into_record::<Soa<domain::base::ParsedName<&[u8]>>>()
+                    .ok()
+                    .flatten()
+                    .map(|r| r.data().serial().into_int() as i64)
+                    .unwrap_or(-1);
+                v.push(serial);
+            } else if rr.rtype() == Rtype::TXT {
+                v.push(0);
+            }
+        }
+    }
+    v
 }
 
 fn ka_of(msg: &Message<[u8]>) -> Option<i64> {
@@ -273,6 +366,7 @@ pub fn abstract_msg(bytes: &[u8]) -> Value {
                 "body": c.ancount() + c.nscount() + c.arcount() > 0,
                 "tc": m.header().tc(),
                 "ka": match ka_of(m) { Some(v) if v >= 0 => v, _ => -1 },
+                "recs": recs_of(m),
             })
         }
         Err(_) => json!({"unparsable": true}),
@@ -478,6 +572,34 @@ pub fn spawn_waiter(
     tokio::spawn(counted(fut, act));
 }
 
+/// Spawn a task that takes everything a zone-transfer request hands out:
+/// messages, WrongReplyForQuery (the stream stays open), the end mark or a
+/// final error.
+pub fn spawn_waiter_multi(
+    mut req: Box<dyn GetResponseMulti + Send + Sync>,
+    r: u64,
+    comp: &Completions,
+    act: &Activity,
+) {
+    let comp = comp.clone();
+    let fut = async move {
+        loop {
+            let res = req.get_response().await;
+            let (o, stop) = match &res {
+                Ok(Some(m)) => (json!({"ok": abstract_msg(m.as_slice())}), false),
+                Ok(None) => (json!({"eof": true}), true),
+                Err(Error::WrongReplyForQuery) => (json!({"err": true}), false),
+                Err(_) => (json!({"err": true}), true),
+            };
+            comp.lock().unwrap().push((r, o, String::new()));
+            if stop {
+                break;
+            }
+        }
+    };
+    tokio::spawn(counted(fut, act));
+}
+
 pub struct StreamSession {
     pub act: Activity,
     pub clock: Clock,
@@ -521,8 +643,13 @@ impl StreamSession {
     pub fn submit(&mut self, r: u64, q: u64) {
         self.nreq = self.nreq.max(r as usize);
         if let Some(conn) = &self.conn {
-            let req = SendRequest::send_request(conn, build_request(q));
-            spawn_waiter(req, r, &self.comp, &self.act);
+            if q >= 500 {
+                let req = SendRequestMulti::send_request(conn, build_request_multi(q));
+                spawn_waiter_multi(req, r, &self.comp, &self.act);
+            } else {
+                let req = SendRequest::send_request(conn, build_request(q));
+                spawn_waiter(req, r, &self.comp, &self.act);
+            }
         }
     }
 
